@@ -848,7 +848,7 @@ func (x Expr) Get(data any) (results []any) {
 			}
 		case *Filter:
 			before := len(stack)
-			ns, _ := tf.evalWithRoot(stack, prev, data)
+			ns, _ := tf.evalWithRoot(stack, prev, tf.rootOr(data))
 			stack, _ = ns.([]any)
 			if int(fi) == len(x)-1 { // last one
 				for i := len(stack) - 1; before <= i; i-- {
@@ -1689,7 +1689,7 @@ func (x Expr) FirstFound(data any) (any, bool) {
 			}
 		case *Filter:
 			before := len(stack)
-			ns, _ := tf.evalWithRoot(stack, prev, data)
+			ns, _ := tf.evalWithRoot(stack, prev, tf.rootOr(data))
 			stack, _ = ns.([]any)
 			if int(fi) == len(x)-1 { // last one
 				if before < len(stack) {
